@@ -820,6 +820,19 @@ def selftest_traces(tr):
     return [t1, t2, t3, t4]
 
 
+def selftest_sector(tr):
+    """a multi-sector trace with one sector select event dropped must be rejected"""
+    t5 = json.loads(json.dumps(tr))
+    for i, e in enumerate(t5["ev"]):
+        if e["a"] == "Cmd" and e["s"] == 1:
+            del t5["ev"][i]
+            break
+    else:
+        return None
+    t5["id"] = tr["id"] + "-dropped-sel"
+    return t5
+
+
 def validate(pid, ck, cases, tag, shards=6, timeout=1500):
     """run the cases on the real code, validate with TLC, classify.  Returns (accepted, events)."""
     enforced = ENFORCED[pid]
@@ -845,6 +858,13 @@ def validate(pid, ck, cases, tag, shards=6, timeout=1500):
     st = []
     for c in cands:
         st += [c] + selftest_traces(c)
+    sel_base = sel_mut = None
+    for tr in traces:
+        if tr["ev"][-2]["res"] == "ok" and any(e["a"] == "Cmd" and e["s"] == 1 for e in tr["ev"]):
+            sel_base = with_relax(tr, ALL_INV, "-st")
+            sel_mut = selftest_sector(sel_base)
+            st += [sel_base, sel_mut]
+            break
     verdicts, stats = tlc.validate_traces("Trace_TlvTag.tla", "Trace_TlvTag.cfg", tag, traces + st,
                                           shards=shards, timeout=timeout)
     demonstrated = 0
@@ -856,6 +876,8 @@ def validate(pid, ck, cases, tag, shards=6, timeout=1500):
             if verdicts[c["id"] + suffix][0] == "ACCEPT":
                 raise tlc.TLCError("binding vacuous: mutated trace %s accepted" % (c["id"] + suffix))
     selftest_ok = demonstrated > 0
+    if sel_base is not None and verdicts[sel_base["id"]][0] == "ACCEPT" and verdicts[sel_mut["id"]][0] == "ACCEPT":
+        raise tlc.TLCError("binding vacuous: trace with a dropped sector select accepted")
     accepted, nev = 0, 0
     pending = []
     for tr in traces:
